@@ -28,7 +28,7 @@ COMMON = ["-std=gnu11", "-g", "-fno-omit-frame-pointer", "-D_GNU_SOURCE",
           "-DHAVE_CONFIG_H", "-D" + GUARD + "=1", "-Wno-error", "-w"]
 SAN = ["-O1", "-fsanitize=address,undefined", "-fsanitize-recover=all",
        "-fno-sanitize=float-divide-by-zero", "-fsanitize=float-cast-overflow",
-       "-fsanitize=bounds-strict", "-fno-sanitize=vla-bound"]
+       "-fsanitize=bounds-strict", "-fno-sanitize=vla-bound", "-fno-sanitize=nonnull-attribute"]
 VARIANTS = {
     "asan": SAN,
     "plain": ["-O1"],
